@@ -7,6 +7,8 @@ import vlib, corelib, coresuite
 
 def replay(ctx):
     obj = json.load(open(ctx.replay))
+    if vlib.replay_program(obj):
+        return
     text = obj.get('replay_case')
     if not text:
         print('replay file has no replay_case: %s' % json.dumps(obj)[:500]); return
@@ -71,6 +73,12 @@ def main(pid, assumptions, level='proof', explanation=None):
         source_reg(ctx)
     res = coresuite.dispatch_suite(ctx.tier, ctx.seed)
     cov = coresuite.summarize(ctx, res, pid)
+    if pid == 'C03':
+        # which pointer update writes `next` through is decided by the registration front end (macros, add_definition,
+        # use_definitions, add_function), which H1 bypasses: self-checking programs (checks/C03_glue.py)
+        import C03_glue
+        cov['registration_glue_programs (next through macros / add_definition / use_definitions / add_function; checks/C03_glue.py)'] = \
+            C03_glue.run(ctx, lambda summary, rep: ctx.violation(summary, rep))
     if ctx.broken and not ctx.violations:
         # a proof or the correspondence no longer checks: search harder for a concrete failing input (DESIGN.md section 7)
         for extra in range(2 if ctx.tier == 'quick' else 6):
